@@ -163,15 +163,22 @@ def judge_mult_exact(prop, r, oi, out):
     """exhausted, uncapped set: every valid sequence is reported exactly Mult(seq) times (R11: a weight-w level of a
     non-derived factor outside the crossings behaves like w distinct copies reported under one name)"""
     o = r.obs[oi]
-    if oi not in r.enumerated or partially_crossed_weighted(r.case):
+    if oi not in r.enumerated:
         return
+    mults = r.mults
+    if partially_crossed_weighted(r.case):
+        # READING-3: the documentation's wording is judged for MultiCrossBlock / Merge (known finding KF14); it is silent
+        # about weights under Nest, where the multiplicities are not judged
+        if any(b["op"] == "Nest" for b in common._all_blocks(r.case["block"])):
+            return
+        mults = r.mults_doc
     seen = {}
     for ei, e in enumerate(o["exps"]):
         seen.setdefault(json.dumps(e["s"]), []).append(ei)
     for key, eis in seen.items():
         if r.verdicts[oi][eis[0]] != "ok":
             continue
-        m = r.mults.get(oi, {}).get(eis[0], 1)
+        m = mults.get(oi, {}).get(eis[0], 1)
         if len(eis) != m:
             out.append(violation(prop, "multiplicity", r.case, strategy=o["strategy"], n=o["n"], times=len(eis),
                                  expected=m, example=json.loads(key)))
